@@ -122,6 +122,8 @@ type kindCfg struct {
 	Hook    bool // install OnPanic
 	OnError bool // install OnError
 	Cache   bool
+	// CacheCap: capacity of the route cache when Cache is set (0 = 2)
+	CacheCap int
 	// NoGlobal: the router has no global middleware; the probe is the first middleware of every route and the first
 	// of custom NotFound / NotAllowed chains (so the context's chain buffer is the router's own slice on 404 / 405)
 	NoGlobal bool
@@ -133,7 +135,11 @@ func newKindRouter(cfg kindCfg) *kindRouter {
 	k := &kindRouter{}
 	opts := []func(*rux.Router){rux.HandleMethodNotAllowed}
 	if cfg.Cache {
-		opts = append(opts, rux.CachingWithNum(2))
+		n := cfg.CacheCap
+		if n == 0 {
+			n = 2
+		}
+		opts = append(opts, rux.CachingWithNum(uint16(n)))
 	}
 	r := rux.New(opts...)
 	k.r = r
@@ -195,6 +201,10 @@ func newKindRouter(cfg kindCfg) *kindRouter {
 	})
 	get("/abort", func(c *rux.Context) { c.WriteString("never") }, func(c *rux.Context) { c.AbortWithStatus(403) })
 	get("/status", func(c *rux.Context) {
+		// (an entry written through the map Data() hands out, without a Set call of its own)
+		if d := c.Data(); d != nil {
+			d["written-through-Data()"] = "1"
+		}
 		c.SetStatus(201)
 		c.WriteString("created")
 	})
